@@ -22,15 +22,15 @@ type BusRoles struct {
 	UpRegT *types.Named // upcast registry struct
 
 	// field names (actual names in the source) by role
-	ShardMu, ShardMap                            string
-	RegMu, RegClaim, RegHandler, RegHandlerType  string
-	RegOnce, RegAsync, RegSeq, RegFilter         string
-	BusShards, BusWG, BusStore, BusSubStore      string
-	BusLastOffset, BusStoreMu, BusObs, BusPanicH string
-	BusPersistErrH, BusTimeout, BusBatch         string
+	ShardMu, ShardMap                              string
+	RegMu, RegClaim, RegHandler, RegHandlerType    string
+	RegOnce, RegAsync, RegSeq, RegFilter           string
+	BusShards, BusWG, BusStore, BusSubStore        string
+	BusLastOffset, BusStoreMu, BusObs, BusPanicH   string
+	BusPersistErrH, BusTimeout, BusBatch           string
 	BusBefore, BusAfter, BusBeforeCtx, BusAfterCtx string
-	BusUpReg                                     string
-	UpMap, UpMu, UpErrH                          string
+	BusUpReg                                       string
+	UpMap, UpMu, UpErrH                            string
 
 	ShardFn    *ssa.Function // (*EventBus).getShard
 	DispatchFn *ssa.Function // callHandlerWithContext (generic body)
